@@ -471,3 +471,13 @@ Proof.
   intros p fd n0 st o st' Hall Hin. apply ok_entry_sound.
   rewrite forallb_forall in Hall. exact (Hall fd Hin).
 Qed.
+
+(* ------------------------------------------------ the diagnostic [dead_uses] *)
+(* what a hit of [dead_uses] means: under the invariant a variable whose abstract value
+   is empty is unbound, so a statement that reads it has no execution *)
+Lemma empty_value_unbound : forall n0 R h e E x,
+  inv_env n0 R h e E -> aisempty (alook E x) = true -> e x = None.
+Proof.
+  intros n0 R h e E x He Hemp. destruct (e x) as [l|] eqn:Hx; [|reflexivity].
+  destruct (He x l Hx) as [_ [a [Ha _]]]. apply PS.is_empty_2 in Hemp. exfalso. exact (Hemp a Ha).
+Qed.
